@@ -198,10 +198,10 @@ Definition sW := mkT [2; 3] 1.      Definition sv := mkT [2] 1.        Definitio
 Definition s2b2 := mkT [2] 2.       Definition s4b2 := mkT [4] 2.      Definition s12b2 := mkT [1; 2] 2.
 Definition s23b2 := mkT [2; 3] 2.   Definition s32b2 := mkT [3; 2] 2.  Definition s1b1 := mkT [1] 1.
 Definition s1b2 := mkT [1] 2.       Definition s1b3 := mkT [1] 3.      Definition s1b4 := mkT [1] 4.
-Definition sK := mkT [2; 2] 1.      Definition sI := mkT [3; 3] 1.     Definition s4b1 := mkT [4] 1.
+Definition s0b1 := mkT [] 1.       Definition sK := mkT [2; 2] 1.      Definition sI := mkT [3; 3] 1.     Definition s4b1 := mkT [4] 1.
 Definition cy_env : @env (@OpFamily.vec Z) :=
-  {| e_pval := fun p => match p with O => [1; -2; 3; 0; 2; -1]%Z | S O => [4; -3]%Z | _ => [1; 2; -1; 3]%Z end;
-     e_pgrad := fun p => match p with O => [0; 0; 0; 0; 0; 0]%Z | S O => [7; 7]%Z | _ => [1; 1; 1; 1]%Z end;
+  {| e_pval := fun p => match p with O => [1; -2; 3; 0; 2; -1]%Z | S O => [4; -3]%Z | S (S O) => [1; 2; -1; 3]%Z | _ => [2]%Z end;
+     e_pgrad := fun p => match p with O => [0; 0; 0; 0; 0; 0]%Z | S O => [7; 7]%Z | S (S O) => [1; 1; 1; 1]%Z | _ => [0]%Z end;
      e_pos := fun _ => 0%N |}.
 Definition cy_cmds : list (@cmd zcop tshape (@OpFamily.vec Z)) :=
   [ CNewGraph;
@@ -237,18 +237,26 @@ Definition cy_cmds : list (@cmd zcop tshape (@OpFamily.vec Z)) :=
     CAdd 0 (OSubConstL s1b1 10%Z) [nd 0 28 0];                          (* 29: 10 - 3 u             *)
     CAdd 0 (ONeg s1b1) [nd 0 29 0];                                     (* 30: 3 u - 10             *)
     CAdd 0 (OAddConst s1b1 5%Z) [nd 0 30 0];                            (* 31                       *)
-    CAdd 0 (OSubConstR s1b1 1%Z) [nd 0 31 0];                           (* 32: y = 3 u - 6          *)
-    CForward 0 (32, 0) ].
+    CAdd 0 (OSubConstR s1b1 1%Z) [nd 0 31 0];                           (* 32: 3 u - 6              *)
+    CAdd 0 (OParam 3 s0b1) [];                                          (* 33: c, a scalar          *)
+    CAdd 0 (OMulScalar s2b2 s0b1) [nd 0 4 0; nd 0 33 0];                (* 34: c h, h = W x - v     *)
+    CAdd 0 (OAddScalar s2b2 s0b1) [nd 0 34 0; nd 0 33 0];               (* 35: c h + c              *)
+    CAdd 0 (OSubScalarL s2b2 s0b1) [nd 0 35 0; nd 0 33 0];              (* 36: c - (c h + c)        *)
+    CAdd 0 (OSubScalarR s2b2 s0b1) [nd 0 36 0; nd 0 33 0];              (* 37: - c h - c   {2} x 2  *)
+    CAdd 0 (OSum s2b2 s1b2 0) [nd 0 37 0];                              (* 38: {1} x 2              *)
+    CAdd 0 (OBatchSum s1b2 s1b1) [nd 0 38 0];                           (* 39: - c sum(h) - 4 c     *)
+    CAdd 0 (OAdd s1b1 s1b1) [nd 0 32 0; nd 0 39 0];                     (* 40: y                    *)
+    CForward 0 (40, 0) ].
 Definition cy_ops0 : list (@opinfo zcop tshape (@OpFamily.vec Z)) :=
   Eval vm_compute in
     match w_graphs (run_all zF cVO {| w_graphs := []; w_env := cy_env |} cy_cmds) with
     | g :: _ => g_ops g | [] => [] end.
 Definition cy_dp : nat -> @OpFamily.vec Z :=
-  fun p => match p with O => [1; 0; 2; -1; 0; 3]%Z | S O => [5; -2]%Z | _ => [0; 1; -1; 2]%Z end.
+  fun p => match p with O => [1; 0; 2; -1; 0; 3]%Z | S O => [5; -2]%Z | S (S O) => [0; 1; -1; 2]%Z | _ => [3]%Z end.
 Definition cy_T : list (list (@OpFamily.vec Z)) := Eval vm_compute in tangents zF zJ cy_dp cy_env cy_ops0.
 Definition cy_tan : nat * nat -> @OpFamily.vec Z := tan_at cy_T.
-Definition cy_seeded := upd_ops cy_ops0 (32, 0) (fun s => set_grad s (Some (vones cVO (s_shape s)))).
-Definition cy_result := Eval vm_compute in sweep zF cVO 32 cy_seeded cy_env [].
+Definition cy_seeded := upd_ops cy_ops0 (40, 0) (fun s => set_grad s (Some (vones cVO (s_shape s)))).
+Definition cy_result := Eval vm_compute in sweep zF cVO 40 cy_seeded cy_env [].
 
 Lemma cy_wf : wf_ops cy_ops0.
 Proof.
@@ -271,7 +279,7 @@ Qed.
 Lemma cy_rsized : rsized zF tsize cy_tan cy_ops0 cy_env.
 Proof.
   intros [k v] s H. unfold get_slot_ops in H. cbn [fst snd] in H.
-  do 33 (destruct k as [|k];
+  do 41 (destruct k as [|k];
           [do 2 (destruct v as [|v]; [cbn in H; first [discriminate H|injection H as <-; split; [reflexivity|intros x [= <-]; reflexivity]]|]);
            cbn in H; destruct v; discriminate H|]);
   cbn in H; destruct k; discriminate H.
@@ -279,7 +287,7 @@ Qed.
 Lemma cy_gclean : gclean cy_ops0.
 Proof.
   intros [k v] s H. unfold get_slot_ops in H. cbn [fst snd] in H.
-  do 33 (destruct k as [|k];
+  do 41 (destruct k as [|k];
           [do 2 (destruct v as [|v]; [cbn in H; first [discriminate H|injection H as <-; reflexivity]|]);
            cbn in H; destruct v; discriminate H|]);
   cbn in H; destruct k; discriminate H.
@@ -288,19 +296,20 @@ Lemma cy_psz : psz zF tsize cy_ops0 cy_env.
 Proof.
   intros k oi p s H Hi Hs. nth_cases k H ltac:(try discriminate Hi; cbn in Hi; injection Hi as <-; cbn in Hs; injection Hs as <-; reflexivity).
 Qed.
-Lemma cy_cover k oi p : nth_error cy_ops0 k = Some oi -> f_inner zF (o_op oi) = Some p -> In p [0; 1; 2].
+Lemma cy_cover k oi p : nth_error cy_ops0 k = Some oi -> f_inner zF (o_op oi) = Some p -> In p [0; 1; 2; 3].
 Proof. intros H Hi. nth_cases k H ltac:(try discriminate Hi; cbn in Hi; injection Hi as <-; cbn; tauto). Qed.
-Lemma cy_nodup : NoDup [0; 1; 2].
+Lemma cy_nodup : NoDup [0; 1; 2; 3].
 Proof. repeat constructor; cbn; intuition discriminate. Qed.
 
 (* with A = sum_b sum(W x_b - v) = 23, C = sum(conv2d(image, K)) = 96, u = A C + stop_gradient(A C),
-   y = 3 u - 6:  d/dW = 3 C (x_0 + x_1)^T per row = 288 (5,7,9), d/dv = -6 C, d/dK = 3 A (28, 24, 16, 12),
-   added to the prior gradients (0.., (7,7), (1,1,1,1)) *)
+   c = 2 a scalar parameter, h = W x - v:  y = 3 u - 6 + sum(- c h - c) = 3 u - 6 - c A - 4 c:
+   d/dW = (3 C - c) (x_0 + x_1)^T per row = 286 (5,7,9), d/dv = -6 C + 2 c, d/dK = 3 A (28, 24, 16, 12),
+   d/dc = - A - 4 = -27, added to the prior gradients (0.., (7,7), (1,1,1,1), 0) *)
 Lemma cy_run : exists ops' e' bl',
-  sweep zF cVO 32 cy_seeded cy_env [] = Some (ops', e', bl') /\
-  e_pgrad e' 0 = [1440; 1440; 2016; 2016; 2592; 2592]%Z /\ e_pgrad e' 1 = [-569; -569]%Z /\
-  e_pgrad e' 2 = [1933; 1657; 1105; 829]%Z /\ length bl' = 33 /\
-  ppot 0%Z Z.add Z.mul cy_dp [0; 1; 2] e' = (ppot 0%Z Z.add Z.mul cy_dp [0%nat; 1%nat; 2%nat] cy_env + 11712)%Z.
+  sweep zF cVO 40 cy_seeded cy_env [] = Some (ops', e', bl') /\
+  e_pgrad e' 0 = [1430; 1430; 2002; 2002; 2574; 2574]%Z /\ e_pgrad e' 1 = [-565; -565]%Z /\
+  e_pgrad e' 2 = [1933; 1657; 1105; 829]%Z /\ e_pgrad e' 3 = [-27]%Z /\ length bl' = 41 /\
+  ppot 0%Z Z.add Z.mul cy_dp [0; 1; 2; 3] e' = (ppot 0%Z Z.add Z.mul cy_dp [0%nat; 1%nat; 2%nat; 3%nat] cy_env + 11565)%Z.
 Proof.
   destruct cy_result as [[[ops' e'] bl']|] eqn:E; [|discriminate E].
   exists ops', e', bl'. split; [exact E|]. vm_compute in E. injection E as <- <- <-. repeat split.
